@@ -51,15 +51,15 @@ func symxOpenFile(name string, flag int, perm os.FileMode) (*os.File, error) {
 	symxDisk.exists = true
 	return nil, nil
 }
-func symxRemove(name string) error             { symxDisk.exists = false; return nil }
+func symxRemove(name string) error               { symxDisk.exists = false; return nil }
 func symxFileTruncate(f *os.File, n int64) error { return nil }
-func symxFileFd(f *os.File) uintptr             { return 3 }
-func symxFileClose(f *os.File) error            { return nil }
+func symxFileFd(f *os.File) uintptr              { return 3 }
+func symxFileClose(f *os.File) error             { return nil }
 func symxMap(fd uintptr, prot gommap.ProtFlags, flags gommap.MapFlags) (gommap.MMap, error) {
 	return gommap.MMap(symxDisk.state[:]), nil // a shared mapping: stores are the file content
 }
 func symxMMapSync(m gommap.MMap, flags gommap.SyncFlags) error { return nil }
-func symxMMapUnmap(m gommap.MMap) error                         { return nil }
+func symxMMapUnmap(m gommap.MMap) error                        { return nil }
 
 // ---- crash points: the process may die at any effect boundary inside Consume ----
 
@@ -119,14 +119,14 @@ func (l *symxCommitLog) WriteEntry(ts uint64, value []byte) (uint64, error) {
 	l.next++
 	return o, nil
 }
-func (l *symxCommitLog) Delete() error                        { return nil }
-func (l *symxCommitLog) Reader() commitlog.Cursor             { return &symxCursor{log: l} }
-func (l *symxCommitLog) Offset() uint64                       { return l.next }
-func (l *symxCommitLog) Datadir() string                      { return "d" }
-func (l *symxCommitLog) LookupTimestamp(ts uint64) uint64     { return 0 }
-func (l *symxCommitLog) Latest() uint64                       { return 0 }
-func (l *symxCommitLog) GetStatistics() commitlog.Statistics  { return commitlog.Statistics{} }
-func (l *symxCommitLog) TruncateAfter(offset uint64) error    { return nil }
+func (l *symxCommitLog) Delete() error                       { return nil }
+func (l *symxCommitLog) Reader() commitlog.Cursor            { return &symxCursor{log: l} }
+func (l *symxCommitLog) Offset() uint64                      { return l.next }
+func (l *symxCommitLog) Datadir() string                     { return "d" }
+func (l *symxCommitLog) LookupTimestamp(ts uint64) uint64    { return 0 }
+func (l *symxCommitLog) Latest() uint64                      { return 0 }
+func (l *symxCommitLog) GetStatistics() commitlog.Statistics { return commitlog.Statistics{} }
+func (l *symxCommitLog) TruncateAfter(offset uint64) error   { return nil }
 func (l *symxCommitLog) TruncateBefore(offset uint64) error {
 	symxCrashPoint()
 	// segments are [first, first+500), ...; drop every segment before the one containing offset
